@@ -186,7 +186,7 @@ PROPS = {
     },
     "C04": {
         "level": "other",
-        "units": ["nameorder"],
+        "units": ["nameorder", "nsec3order"],
         "kani": [
             {"group": "g0", "name": "c04_label_order_eq_hash_len8_bounded", "kind": "bounded", "tier": "quick", "timeout": 300,
              "bound": "two labels of at most 8 octets, all contents",
@@ -204,6 +204,10 @@ PROPS = {
             {"group": "g0", "name": "c04_name_eq_implies_hash_eq_fixed_layout_bounded", "kind": "bounded", "tier": "quick", "timeout": 900,
              "bound": "two flat names with the fixed label layout 1+2 content octets and the root label; all content octets",
              "what": "Name: names that compare equal write the same octets to any Hasher (Hash for Name walks the labels)"},
+            {"group": "g0", "name": "c04_name_composed_cmp_fixed_layout_bounded", "kind": "bounded", "tier": "quick", "timeout": 900,
+             "bound": "two flat names with the fixed label layout 1+2 content octets and the root label; all content octets",
+             "what": "Name: composed_cmp == octet order of the wire forms, lowercase_composed_cmp == octet order of the lower-cased "
+                     "wire forms, on the compiled code (counterpart of unit nameorder, independent of fast paths and adapters)"},
             {"group": "g0", "name": "c04_record_eq_implies_hash_eq", "kind": "complete", "tier": "quick",
              "what": "Record<u8, A>: == <=> (class, data) equal, for all classes, TTL pairs and addresses; equal records write the same "
                      "bytes to any Hasher (the generic Hash impl does not look into the owner type)"},
@@ -211,6 +215,8 @@ PROPS = {
         "replays": [
             {"bin": "d7_record_hash_ttl", "finding": "D7"},
             {"bin": "d18_nsec_order_ignores_types", "finding": "D18"},
+            {"bin": "d19_nsec3_partial_ord_vs_ord", "finding": "D19"},
+            {"bin": "d20_rrsig_partial_ord_vs_ord", "finding": "D20"},
         ],
         "explanation": "Names (Verus unit nameorder, real text of the provided methods of ToName in base/name/traits.rs, for every "
                        "implementor, i.e. every representation -- flat, compressed ParsedName, chain): name_eq == label-wise equality "
@@ -223,7 +229,13 @@ PROPS = {
                        "NSEC record data (rdata/dnssec.rs, real text of the PartialEq/PartialOrd/Ord/CanonicalOrd impls of Nsec and "
                        "RtypeBitmap): == is (next names equal up to case, bitmaps identical), cmp/partial_cmp order by next name then "
                        "bitmap and are Equal exactly on equal values, canonical_cmp == octet-wise order of the canonical RDATA "
-                       "(lemma: wire-form names are prefix-free). "
+                       "(lemma: wire-form names are prefix-free). NSEC3 and NSEC3PARAM (unit nsec3order, rdata/nsec3.rs, real text of "
+                       "the impls of Nsec3, Nsec3param, Nsec3Salt, OwnerHash): == is field-wise equality; canonical_cmp == octet-wise "
+                       "order of the canonical RDATA (algorithm, flags, big-endian iterations, length-prefixed salt and hash, "
+                       "bitmap); PartialOrd for Nsec3 agrees with Ord (partial_cmp == Some(cmp)); Ord for Nsec3param is the "
+                       "field order with the salt as a plain octet string. RRSIG (unit nameorder, real text of the impls of Rrsig): "
+                       "== is field-wise with the signer compared as a name; canonical_cmp and cmp are the field order with the signer "
+                       "name by its canonical wire form and the signature as octets; partial_cmp == Some(cmp). "
                        "Laws proved over the reference definitions the code is tied to: the name order is antisymmetric, "
                        "transitive, and Equal exactly on names that are name_eq (so order, equality and representation cannot "
                        "disagree). Labels, records (Kani on the compiled generic code, whose comparison code is written with "
@@ -233,12 +245,14 @@ PROPS = {
         "not_covered": "Hash for names beyond the bounded harness (for-loop over a label iterator, outside Verus), the relative-name versions "
                        "(ToRelativeName), the iterators themselves (iter_labels/as_flat_slice of Name, ParsedName, Chain are assumed "
                        "to enumerate labels() -- ParsedName's iterator is under contract in C01's unit nameparse), CharStr, canonical "
-                       "ordering of record data per type versus canonical wire form, Record::canonical_cmp.",
+                       "ordering of record data of the other types versus canonical wire form (macro-generated per type), Record::canonical_cmp.",
         "assumptions": [
             "<[u8]>::eq_ignore_ascii_case (core): same length and octets equal after ASCII lower-casing",
             "<[u8] as Ord>::cmp / PartialOrd::partial_cmp (core): left-justified octet-string order (axiom_slice_cmp_octets)",
             "<[u8] as PartialEq>::eq (core): equality of the octet strings (axiom_slice_eq_octets)",
             "Ord for Label == RFC 4034 label order (iterator adapters; discharged on the compiled code by Kani c04_label_order_eq_hash_len63, thorough tier)",
+            "Nsec3HashAlgorithm (int_enum! macro over u8) is modelled as an octet with the integer's Eq/Ord; Nsec3Salt/OwnerHash are at most 255 octets (their constructors' invariant)",
+            "Timestamp::{partial_cmp, canonical_cmp, into_int} (under contract in unit serial, C17), Rtype/SecurityAlgorithm/Ttl as integers",
             "Iterator::eq over label iterators with PartialEq for Label: element-wise ci equality and same number of elements",
             "ToName implementors: iter_labels() enumerates labels(), as_flat_slice() (when Some) is the concatenated wire form of labels(); labels are at most 63 octets; absolute names end with the only empty label (C03)",
         ],
@@ -318,7 +332,7 @@ PROPS = {
     },
     "C12": {
         "level": "other",
-        "units": [],
+        "units": ["nameorder"],
         "kani": [
             {"group": "g0", "name": "c12_key_tag_matches_rfc4034_bounded", "kind": "bounded", "tier": "quick",
              "bound": "public keys of 0..=12 octets, all flags/protocol/algorithm values except RSAMD5, all key contents",
@@ -327,11 +341,20 @@ PROPS = {
              "bound": "RSAMD5 keys of 0..=6 octets", "what": "key tag of algorithm 1 keys: octets len-3, len-2; 0 for short keys; no panic"},
             {"group": "g0", "name": "c12_key_tag_matches_rfc4034_len48_bounded", "kind": "bounded", "tier": "thorough",
              "bound": "public keys of exactly 48 octets", "what": "as above at a realistic key size"},
+            {"group": "g0", "name": "c12_rrsig_label_count_fixed_layout_bounded", "kind": "bounded", "tier": "quick",
+             "bound": "owner names of three one-octet labels (all contents), the root name and `*.`",
+             "what": "ToName::rrsig_label_count on the compiled code: labels without the root and without a LEFTMOST asterisk label "
+                     "only (RFC 4034 3.1.3) -- the compiled counterpart of the contract in unit nameorder"},
         ],
         "explanation": "bounded contract checking of the one DNSSEC computation that is plain arithmetic: Dnskey::key_tag against an "
-                       "independent transcription of RFC 4034 Appendix B (Kani, key sizes stated). Timestamp ordering is covered by C17.",
+                       "independent transcription of RFC 4034 Appendix B (Kani, key sizes stated); and the value of the RRSIG Labels field: "
+                       "ToName::rrsig_label_count (real text, unit nameorder, for every name representation) == number of labels not "
+                       "counting the root and a leftmost asterisk label, with its unwrap() and subtraction proved safe for absolute "
+                       "names. Timestamp ordering is covered by C17; the canonical name and RDATA orders the signer sorts by are "
+                       "covered by C04 (units nameorder, nsec3order).",
         "not_covered": "Everything else in the statement: the signed-octets construction (RFC 4034 3.1.8.1), signing and verification "
-                       "(ring/openssl: asm/FFI), DS digests, wildcard/label-count handling, tamper rejection. Dnskey::key_tag could "
+                       "(ring/openssl: asm/FFI), DS digests, wildcard reconstruction in RrsigExt::signed_data (sort_by, iterator adapters, Cow: "
+                       "outside both tools), scratch-buffer handling of the signer, tamper rejection. Dnskey::key_tag could "
                        "not be taken to Verus (u16::from_be_bytes / <[u8]>::try_into have no Verus specification), so the u32 "
                        "accumulator bound for 65535-octet keys is not proved, only checked up to 48 octets.",
     },
@@ -436,7 +459,7 @@ PROPS = {
     },
     "C05": {
         "level": "other",
-        "units": ["rtypebitmap"],
+        "units": ["rtypebitmap", "tsig"],
         "kani": [
             {"group": "g0", "name": "c05_a_roundtrip", "kind": "complete", "tier": "quick",
              "what": "A: every address: rdlen == 4 == octets written; parse(compose(x)) == x consuming all; canonical form identical"},
@@ -458,8 +481,15 @@ PROPS = {
             {"group": "g0", "name": "c05_mx_srv_roundtrip_bounded", "kind": "bounded", "tier": "thorough", "timeout": 1500,
              "bound": "one fixed mixed-case two-label name, all scalar fields",
              "what": "MX, SRV: rdlen exact; canonical form == wire form with exactly the embedded name lower-cased (RFC 4034 6.2 / RFC 6840 5.1)"},
+            {"group": "g0", "name": "c05_enum_dispatch_mx_bounded", "kind": "bounded", "tier": "quick", "timeout": 900,
+             "bound": "one variant (MX) of ZoneRecordData and AllRecordData, fixed exchange name with upper-case letters, preference symbolic",
+             "what": "the macro-generated enums dispatch compose_rdata, compose_canonical_rdata and rdlen to the variant's own method"},
         ],
-        "explanation": "bounded/complete contract checking with Kani of the compose/parse/rdlen quadruple on the compiled, "
+        "explanation": "Unit tsig (rdata/tsig.rs, base/rdata.rs): Tsig::new accepts exactly the data whose wire length (algorithm "
+                       "name + 16 + MAC + other) fits the 16-bit RDLENGTH, LongRecordData::{check_len, check_append_len} are the "
+                       "65535 limit, and Tsig::rdlen on an accepted value equals that wire length with no failing expect() or "
+                       "overflow. Kani c05_enum_dispatch_mx_bounded: ZoneRecordData / AllRecordData dispatch compose, canonical "
+                       "compose and rdlen to the variant. Otherwise: bounded/complete contract checking with Kani of the compose/parse/rdlen quadruple on the compiled, "
                        "macro-generated generic code, for the record types CBMC can handle: A and AAAA complete over all values; DS, "
                        "DNSKEY, TLSA, SSHFP, HINFO with small symbolic octet fields; MX and SRV with one fixed name (canonical "
                        "lower-casing). Verus unit rtypebitmap (rdata/dnssec.rs, real text): the type bitmap shared by NSEC, NSEC3 "
@@ -471,6 +501,8 @@ PROPS = {
         "assumptions": [
             "AsRefOctets models the bound AsRef<[u8]>: an octets value has one fixed content returned by every as_ref() call",
             "Rtype (int_enum! macro) is modelled as a 16-bit code with from_int/to_int",
+            "octets values are at most a quarter of the address space long (makes the checked_add(..).expect() of Tsig::new dead code)",
+            "ToName::compose_len is between 1 and 255 (C03)",
         ],
         "not_covered": "All other types (NS-family, SOA, TXT, NAPTR, CAA, RRSIG, the NSEC/NSEC3 records around the bitmap, NSEC3PARAM, SVCB/HTTPS, OPT and its "
                        "options, TSIG, ZONEMD, IPSECKEY, OPENPGPKEY, CDS/CDNSKEY, Unknown/opaque carry), symbolic names inside RDATA "
